@@ -51,13 +51,14 @@ def gen_trajectory(rng, cubic):
     for s in range(nseg):
         L = rng.choice([7, 8, 8, 9, 12, 20, 30]) if rng.random() < 0.9 else 0
         start = len(x)
-        coef = [[Fraction(rng.randrange(-6, 7), rng.choice([1, 2, 4])) for _ in range(4)] for _ in range(D)]
+        den = rng.choice([1, 1, 2, 4])
+        coef = [[Fraction(rng.randrange(-6, 7), den) for _ in range(4)] for _ in range(D)]
         for t in range(L):
             if cubic:
                 row = [c[0] + c[1] * t + c[2] * t * t + c[3] * t ** 3 for c in coef]
                 truth.append([c[1] + 2 * c[2] * t + 3 * c[3] * t * t for c in coef])
             else:
-                row = [Fraction(rng.randrange(-40, 41), rng.choice([1, 2, 4, 8])) for _ in range(D)]
+                row = [Fraction(rng.randrange(-40, 41), rng.choice([1, 1, 2, 4, 8])) for _ in range(D)]
                 truth.append(None)
             x.append(row)
         segs.append((start, len(x)))
@@ -93,7 +94,11 @@ def run(ctx, rep):
         if not x:
             continue
         xn = to_np(x)
-        case = {"rows": rows_str(x), "segments": segs, "cubic": cubic}
+        int_input = False
+        if all(v is not None and v.denominator == 1 for row in x for v in row) and rng.random() < 0.5:
+            xn = np.array([[int(v) for v in row] for row in x], dtype=int)      # counts / ticks: integer dtype input
+            int_input = True
+        case = {"rows": rows_str(x), "segments": segs, "cubic": cubic, "integer_dtype": int_input}
         try:
             with warnings.catch_warnings():
                 warnings.simplefilter("ignore")
@@ -126,7 +131,7 @@ def run(ctx, rep):
                 k = rng.randrange(len(segs))
                 a, b = segs[k]
                 if b > a:
-                    x2 = xn.copy()
+                    x2 = xn.astype(float)
                     x2[a:b, :] += rng.uniform(1, 5)
                     _, d2, inds2 = ir._calculate_partials(x2)
                     keep = [r_ for r_, i in enumerate(got_inds) if not (a <= i < b)]
@@ -229,6 +234,34 @@ def fitness_oracle(ctx, rep):
             rep.violate(f"implicit fitness {f1} outside [0, 1]", "C20:fitness-range", case)
         if math.isfinite(f1) != math.isfinite(f2) or (math.isfinite(f1) and abs(f1 - f2) > 1e-9):
             rep.violate(f"implicit fitness changed from {f1} to {f2} when the equation was multiplied by {alpha}", "C20:not-scale-invariant", case)
+    # the same fitness object used on different data of the same shape (what RandomSubsetEvaluation and predictor islands do)
+    for t in range(ctx.n(60, 600)):
+        D = 2
+        tt = np.linspace(0, 1, 19)
+        xa = np.array([[math.sin(1.3 * v + j) + 0.2 * j * v for j in range(D)] for v in tt])
+        xb = np.array([[5.0 * math.cos(2.1 * v + j) + 3.0 * v * (j + 1) for j in range(D)] for v in tt])
+        with warnings.catch_warnings():
+            warnings.simplefilter("ignore")
+            da, db = ImplicitTrainingData(xa), ImplicitTrainingData(xb)
+        genome = G.random_stack(rng, rng.choice([3, 5, 8]), D, [G.ADD, G.SUB, G.MUL, G.SIN], term_prob=0.35, const_prob=0.0, int_prob=0.1, n_load=2)
+        ag = AGraph()
+        ag.command_array = np.array(genome, dtype=int).reshape(-1, 3)
+        fit = ImplicitRegression(da)
+        with warnings.catch_warnings():
+            warnings.simplefilter("ignore")
+            with np.errstate(all="ignore"):
+                fit(ag)
+                fit.training_data = db
+                f_swapped = float(fit(ag))
+                f_fresh = float(ImplicitRegression(db)(ag))
+        rep.case(("swap", str(genome)), True)
+        rep.count("implicit_fitness", "data swapped")
+        if math.isfinite(f_swapped) and not (0.0 <= f_swapped <= 1.0 + 1e-12):
+            rep.violate(f"implicit fitness {f_swapped} outside [0, 1] after the training data of the fitness object was replaced", "C20:fitness-range",
+                        {"genome": genome})
+        elif math.isfinite(f_swapped) != math.isfinite(f_fresh) or (math.isfinite(f_fresh) and abs(f_swapped - f_fresh) > 1e-12):
+            rep.violate(f"implicit fitness {f_swapped} on replaced training data differs from a fresh fitness object ({f_fresh})", "C20:stale-data",
+                        {"genome": genome})
     # an exact invariant: x0^2 + x1^2 on a circle
     tt = np.linspace(0.2, 1.3, 40)      # away from multiples of pi/2, where every term of the row vanishes (0/0)
     x = np.column_stack([np.cos(tt), np.sin(tt)])
